@@ -292,11 +292,12 @@ impl DcpsDomainParticipant {
         Ok(subscriber.default_data_reader_qos.clone())
     }
 
-    #[tracing::instrument(skip(self))]
+    #[tracing::instrument(skip(self, runtime))]
     pub fn set_subscriber_qos(
         &mut self,
         subscriber_handle: &InstanceHandle,
         qos: QosKind<SubscriberQos>,
+        runtime: &impl DdsRuntime,
     ) -> DdsResult<()> {
         let qos = match qos {
             QosKind::Default => self.domain_participant.default_subscriber_qos.clone(),
@@ -316,6 +317,17 @@ impl DcpsDomainParticipant {
             subscriber.qos.check_immutability(&qos)?;
         }
         subscriber.qos = qos;
+
+        // The subscriber policies are part of the discovery data of its readers
+        let enabled_reader_list: Vec<_> = subscriber
+            .data_reader_list
+            .iter()
+            .filter(|x| x.enabled)
+            .map(|x| x.instance_handle)
+            .collect();
+        for data_reader_handle in enabled_reader_list {
+            self.announce_data_reader(subscriber_handle, &data_reader_handle, runtime);
+        }
         Ok(())
     }
 
